@@ -43,15 +43,19 @@ pub fn one_net(b: u64, spec: &NetSpec, lookups: bool) -> Value {
     net.sim.crash(lonely);
     // tables
     let all: Vec<usize> = net.servers.iter().chain(net.clients.iter()).cloned().collect();
-    let mut nodes = vec![];
-    for &n in &all {
-        if let Some(s) = net.sim.snapshot(n) {
-            let rt: Vec<String> = s.routing_table.nodes.iter().map(|x| x.addr.clone()).collect();
-            let srt: Vec<String> = s.signed_peers_routing_table.nodes.iter().map(|x| x.addr.clone()).collect();
-            nodes.push(json!({"n":n,"addr":net.sim.nodes[n].addr.to_string(),"server":s.server_mode,"rt":rt,"srt":srt,
-                "has_bootstrap": !s.bootstrap.is_empty()}));
+    let tables = |net: &mut Net| -> Vec<Value> {
+        let mut nodes = vec![];
+        for &n in &all {
+            if let Some(s) = net.sim.snapshot(n) {
+                let rt: Vec<String> = s.routing_table.nodes.iter().map(|x| x.addr.clone()).collect();
+                let srt: Vec<String> = s.signed_peers_routing_table.nodes.iter().map(|x| x.addr.clone()).collect();
+                nodes.push(json!({"n":n,"addr":net.sim.nodes[n].addr.to_string(),"server":s.server_mode,"rt":rt,"srt":srt,
+                    "has_bootstrap": !s.bootstrap.is_empty(), "id": s.id, "public_address": s.public_address.clone().unwrap_or_default(), "firewalled": s.firewalled}));
+            }
         }
-    }
+        nodes
+    };
+    let nodes = tables(&mut net);
     // every node looks a random target up: which servers did it query
     let mut lks = vec![];
     if lookups {
@@ -62,11 +66,15 @@ pub fn one_net(b: u64, spec: &NetSpec, lookups: bool) -> Value {
             lks.push(json!({"n":n,"done":call.done(),"queried":tr.queried.iter().map(|a| a.to_string()).collect::<Vec<_>>()}));
         }
     }
+    // the tables again once every node has used the network (its lookup collected address votes: on public plans this is
+    // where a node confirms its address and re-keys) - the network must STAY connected
+    net.sim.run_for(5000);
+    let nodes_after = tables(&mut net);
     let panicked: Vec<usize> = all.iter().cloned().filter(|&n| net.sim.nodes[n].panicked).collect();
     json!({"e":"net","b":b,"spec":{"servers":spec.servers,"clients":spec.clients,"plan":spec.plan,"join":spec.join,"dead_bootstrap":spec.dead_bootstrap},
         "first": net.sim.nodes[net.servers[0]].addr.to_string(),
         "servers": net.servers.iter().map(|&n| net.sim.nodes[n].addr.to_string()).collect::<Vec<_>>(),
-        "nodes": nodes, "lookups": lks,
+        "nodes": nodes, "nodes_after": nodes_after, "lookups": lks,
         "late": {"done": bdone, "result": late_result, "dur_ms": bdur},
         "dead": {"done": ddone, "result": dead_result, "dur_ms": ddur, "tmax_ms": dead_tmax, "addresses": 2},
         "panicked": panicked})
@@ -87,6 +95,10 @@ pub fn run(args: &Args) -> i32 {
                 specs.push(NetSpec { servers: s, clients: (i + j) % 4, plan: plan.to_string(), join: join.to_string(), dead_bootstrap: (i + k) % 3, seed: seed ^ ((i * 31 + j * 7 + k) as u64) });
             }
         }
+    }
+    // nobody knows its public address: every node (the bootstrap-less first one too) re-keys once its address is confirmed
+    for (i, &sv) in (if thorough { vec![2usize, 3, 4, 6, 9, 12, 16, 20] } else { vec![2usize, 4, 9, 16] }).iter().enumerate() {
+        specs.push(NetSpec { servers: sv, clients: i % 3, plan: "public_rekey".into(), join: ["sequential", "simultaneous"][i % 2].into(), dead_bootstrap: i % 2, seed: seed ^ (700 + i as u64) });
     }
     // bootstrap lists longer than one lookup's first round, the live server last (22 dead first) or in the middle
     for (i, &sv) in [3usize, 8].iter().enumerate() {
